@@ -419,7 +419,7 @@ class C12(Prop):
         ops = []
         for _ in range(rng.range(1, 3)):
             k = rng.weighted([("kick", 2), ("drop", 2), ("ecmd", 5 if level > 1 else 0), ("gc", 3), ("it", 2), ("itn", 1),
-                              ("err", 2), ("exec", 1)])
+                              ("err", 2), ("exec", 2)])
             if k in ("kick", "drop"):
                 ops.append("%s,u%d" % (k, rng.range(1, nusers + 1)))
             elif k == "ecmd":
